@@ -118,7 +118,10 @@ fn run_pairs(cx: &mut CaseCx, case: &Value) {
 fn run_windows(cx: &mut CaseCx, case: &Value) {
   let t = case["t"].as_u64().unwrap() as u32;
   let meas = meas_alphabet(true)[case["m"].as_u64().unwrap() as usize].clone();
-  let epoch = epoch_alphabet(true)[case["e"].as_u64().unwrap() as usize].clone();
+  let epoch = match case["ebyte"].as_u64() {
+    Some(b) => vec![b as u8], // single-byte epochs: collide with any one-byte domain separator of another derivation
+    None => epoch_alphabet(true)[case["e"].as_u64().unwrap() as usize].clone(),
+  };
   let alen = case["alen"].as_u64().unwrap() as usize;
   let aux = Some(prbytes(777 + alen as u64, alen));
   let rnd = local_randomness(&meas, &epoch, t);
@@ -176,6 +179,46 @@ fn run_windows(cx: &mut CaseCx, case: &Value) {
       hit |= try_key(cx, &k, "derive_ske_key of a window of the report", at);
     }
   }
+  // (b') two-step chain: a report window taken as the SHARING key opens the share's encrypted message,
+  // whose content derives the payload key. The Strobe replica of the share encryption is an extraction
+  // aid: it is used only if it reproduces the recovered message from the true sharing key.
+  if !hit {
+    let mut group = vec![msg.clone()];
+    for i in 1..t {
+      getrandom::verif::set_group(900 + i);
+      if let Ok(m2) = gen_report(&meas, &epoch, t, &rnd, &None) {
+        group.push(m2);
+      }
+    }
+    let shares: Vec<sta_rs::Share> = group.iter().map(|m| m.share.clone()).collect();
+    let parsed = crate::refmodel::parse_adss(&msg.share.to_bytes());
+    if let (Ok(Ok(r0)), Some(p)) = (recover_msg(&shares), parsed) {
+      let open_c = |k: &[u8]| -> Vec<u8> {
+        let mut st = strobe_rs::Strobe::new(b"adss encrypt", strobe_rs::SecParam::B128);
+        st.key(k, false);
+        let mut m = p.c.clone();
+        st.recv_enc(&mut m, false);
+        m
+      };
+      let xs: Vec<num_bigint::BigUint> = group.iter().filter_map(|m| share_x(&m.share.to_bytes())).collect();
+      let g = super::c01::Group { msgs: group.clone(), xs, auxs: vec![], meas: meas.clone(), epoch: epoch.clone(), t };
+      let validated = super::c01::sharing_key(&g).map(|k| open_c(&k) == r0).unwrap_or(false);
+      if validated {
+        cx.count("chain_replica_validated", 1);
+        for at in 0..=(enc.len().saturating_sub(16)) {
+          let cand = open_c(&enc[at..at + 16]);
+          let mut k = vec![0u8; 16];
+          sta_rs::derive_ske_key(&cand, &epoch, &mut k);
+          if try_key(cx, &k, "a 16-byte window of the report used as sharing key (window -> encrypted message -> payload key)", at) {
+            hit = true;
+            break;
+          }
+        }
+      } else {
+        cx.count("chain_replica_unavailable", 1);
+      }
+    }
+  }
   for (name, key) in [("the all-zero key", vec![0u8; 16]), ("an empty key", vec![]), ("the tag", msg.tag.clone()), ("the public label as key", b"star_encrypt".to_vec())] {
     if !hit {
       hit |= try_key(cx, &key, name, 0);
@@ -214,7 +257,7 @@ pub fn spec() -> PropSpec {
       },
       Check {
         name: "report-windows",
-        rule: "per (measurement, epoch, t, aux length in 8..600 incl. block boundaries): every 8-byte window of the aux against every report offset; every 16/32-byte window of the encoded report as decryption key (raw and through derive_ske_key) plus junk keys; distinct = configurations",
+        rule: "per (measurement, epoch incl. single-byte epochs 0x00..0xff, t, aux length in 8..600 incl. block boundaries): also every 16-byte window as SHARING key through the chain window -> encrypted message -> payload key (self-validating Strobe replica); every 8-byte window of the aux against every report offset; every 16/32-byte window of the encoded report as decryption key (raw and through derive_ske_key) plus junk keys; distinct = configurations",
         gen: |t| {
           let mut v = vec![];
           let mut lens: Vec<usize> = vec![8, 16, 40, 100, 130, 150, 155, 157, 158, 159, 165, 166, 167, 200, 300, 331, 332, 333, 340, 500, 560];
@@ -225,6 +268,12 @@ pub fn spec() -> PropSpec {
           for (tt, m, e) in [(2u64, 1usize, 1usize), (3, 4, 0), (2, 10, 2), (2, 7, 1)] {
             for &l in &lens {
               v.push(json!({"t": tt, "m": m, "e": e, "alen": l}));
+            }
+          }
+          // every single-byte epoch (an epoch equal to a one-byte label of another derivation)
+          for b in 0..=255u64 {
+            if t.thorough() || b < 16 || b % 16 == 0 || b == 255 {
+              v.push(json!({"t": 2 + b % 2, "m": 1, "e": 0, "ebyte": b, "alen": 8 + (b % 3)}));
             }
           }
           v
